@@ -1172,6 +1172,19 @@ func (r *gRun) oracles() []string {
 				}
 			}
 		}
+		// a lookup after the start that answers without an error hands out a component that has been initialised: its Init
+		// ran to the end at some time (a fail-once Init: the first run does not count)
+		for i := range r.succAtt {
+			okInits := r.inits[i]
+			if r.sc.nodes[i].flt&fltInitOnce != 0 && okInits > 0 {
+				okInits--
+			}
+			if okInits < 1 && !utInfos[r.sc.nodes[i].ty].pp {
+				for _, sig := range []string{"c02-lookup-half-built", "c05-lookup-half-built", "c07-lookup-half-built", "c04-lookup-half-built"} {
+					add(sig, "the lookup of node %d after the start returned no error, but Init never ran to the end on that component (%d runs, fail-once: %v): a half-built instance was handed out", i, r.inits[i], r.sc.nodes[i].flt&fltInitOnce != 0)
+				}
+			}
+		}
 		for i, n := range r.inits {
 			if n > 1 && !r.sc.retry() {
 				add("c05-init-twice", "Init ran %d times on the instance of node %d within one start (lookups after the start included)", n, i)
